@@ -16,7 +16,8 @@ CLAIMED = {
              "old dump is renamed to backup 0, that rename happens exactly when a previous dump exists and precedes the "
              "truncating open - also when the rename is folded into the shift loop, in every counter state the manager can reach - "
              "rename failures abort, an explicit deletion in the rotation never removes a slot that holds a dump to be kept (stage from the "
-             "CFG, slot index and guards by finite case evaluation over the reachable counter states), the dump site closes the writer "
+             "CFG, slot index and guards by finite case evaluation over the reachable counter states), no other method of the manager deletes a "
+             "file whose name is built from the dump / backup literals, the dump site closes the writer "
              "and a stop is dumped before resubmit. "
              "The newest-first history claim follows by the pencil argument in DESIGN.md; crash timing is not explored.",
         note="Trusted: clang front end, AST export, atomic rename (POSIX); nothing else touches the dump files."),
